@@ -460,6 +460,37 @@ overflow (panic). -/
 theorem C13_decode_timestamp_before_fix_fails : timestampOld (-1) 0 = none ∧ timestamp (-1) 0 = some (-1000000000) := by
   decide
 
+/-- `WaitInfo::status` equals what `wait(2)`/`std` report for the same child, for every `si_status`
+the kernel can write (an `i32`) and each `si_code`: an exited child has `WIFEXITED` and its exit
+code, a killed one `WIFSIGNALED` with the signal (and `WCOREDUMP` iff it dumped core), a stopped or
+traced one `WIFSTOPPED` with the signal, a continued one `WIFCONTINUED`. (A signal number is in
+1..=64, never 0 or 127.) -/
+theorem C13_decode_wait_status (status : Int) (h : -2147483648 ≤ status ∧ status ≤ 2147483647) :
+    (wifexited (waitStatus 1 status) = true ∧ wexitstatus (waitStatus 1 status) = status % 256) ∧
+    ((1 ≤ status ∧ status ≤ 64) →
+      wifsignaled (waitStatus 2 status) = true ∧ wtermsig (waitStatus 2 status) = status ∧
+      wcoredump (waitStatus 2 status) = false ∧
+      wifsignaled (waitStatus 3 status) = true ∧ wtermsig (waitStatus 3 status) = status ∧
+      wcoredump (waitStatus 3 status) = true ∧
+      wifstopped (waitStatus 5 status) = true ∧ wstopsig (waitStatus 5 status) = status ∧
+      wifstopped (waitStatus 4 status) = true ∧ wstopsig (waitStatus 4 status) = status) ∧
+    wifcontinued (waitStatus 6 status) = true := by
+  obtain ⟨h1, h2⟩ := h
+  refine ⟨?_, ?_, by simp [waitStatus, wifcontinued]⟩
+  · simp only [waitStatus, wifexited, wexitstatus, if_true, decide_eq_true_eq]
+    omega
+  · intro ⟨a, b⟩
+    simp only [waitStatus, wifsignaled, wtermsig, wcoredump, wifstopped, wstopsig]
+    simp
+    omega
+
+/-- The repaired defect (`fix:` commit 52243a1): `si_status` handed to `ExitStatus::from_raw` as is
+made a child that exited with code 3 look like one killed by signal 3. -/
+theorem C13_decode_wait_status_before_fix_fails :
+    wifexited (waitStatusOld 1 3) = false ∧ wtermsig (waitStatusOld 1 3) = 3 ∧
+    wifexited (waitStatus 1 3) = true ∧ wexitstatus (waitStatus 1 3) = 3 := by
+  decide
+
 def sumLens (bufs : List (Nat × Nat)) : Nat := (bufs.map (·.2)).sum
 def sumSpare (bufs : List (Nat × Nat)) : Nat := (bufs.map (fun b => b.1 - b.2)).sum
 
